@@ -258,6 +258,65 @@ def qrsolve (ops : QROps K) (a0 b0 : Array K) (m n o : Nat) : Array K × Array K
   let st := qrd ops a0 m n
   ((qrCols ops st.a st.dv m n o o (b0, Array.replicate (n * o) 0)).2, st.dv)
 
+/-! ### explicit Q and R, and the solve from them: `_vnacommon_qr`, `_vnacommon_qrsolve2` -/
+
+/-- the m×n array with entries f i j (row-major) -/
+def mkR (m n : Nat) (f : Nat → Nat → K) : Array K :=
+  (Array.range (m * n)).map fun idx => f (idx / n) (idx % n)
+
+/-- `_vnacommon_qr`, row i of Q at diagonal d: `s = Σ_{j=d}^{m-1} Q(i,j) A(j,d)` -/
+def qDot (a q : Array K) (m n d i : Nat) : Nat → K
+  | 0 => 0
+  | t + 1 => qDot a q m n d i t + get q m i (d + t) * get a n (d + t) d
+
+/-- columns d .. d+cnt-1 of row i: `Q(i,j) -= 2 s conj(A(j,d))` -/
+def qUpd (ops : QROps K) (a : Array K) (m n d i : Nat) (s : K) : Nat → Array K → Array K
+  | 0, q => q
+  | t + 1, q =>
+    let q' := qUpd ops a m n d i s t q
+    set q' m i (d + t) (get q' m i (d + t) - (1 + 1) * s * ops.conj (get a n (d + t) d))
+
+/-- rows 0 .. cnt-1 of Q multiplied from the right by reflector d -/
+def qRows (ops : QROps K) (a : Array K) (m n d : Nat) : Nat → Array K → Array K
+  | 0, q => q
+  | i + 1, q =>
+    let q' := qRows ops a m n d i q
+    qUpd ops a m n d i (qDot a q' m n d i (m - d)) (m - d) q'
+
+/-- reflectors 0 .. cnt-1 accumulated into Q -/
+def qAccum (ops : QROps K) (a : Array K) (m n : Nat) : Nat → Array K → Array K
+  | 0, q => q
+  | d + 1, q => qRows ops a m n d m (qAccum ops a m n d q)
+
+/-- `_vnacommon_qr`: returns (Q m×m, R m×n, d) -/
+def qr (ops : QROps K) (a0 : Array K) (m n : Nat) : Array K × Array K × Array K :=
+  let st := qrd ops a0 m n
+  let q := qAccum ops st.a m n (min m n) (mkR m m fun i j => if i = j then 1 else 0)
+  let r := mkR m n fun i j => if i < j then get st.a n i j else if i = j then st.dv[j]! else 0
+  (q, r, st.dv)
+
+/-- `s = Σ_{k<cnt} conj(Q(k,i)) B(k,j)` -/
+def qtbDot (ops : QROps K) (q b : Array K) (m o i j : Nat) : Nat → K
+  | 0 => 0
+  | k + 1 => qtbDot ops q b m o i j k + ops.conj (get q m k i) * get b o k j
+
+/-- `_vnacommon_qrsolve2`, column j of X, rows diag-1 down to diag-cnt:
+    `X(i,j) = (Σ_k conj Q(k,i) B(k,j) - Σ_{k=i+1}^{diag-1} R(i,k) X(k,j)) / R(i,i)` -/
+def qs2Back (ops : QROps K) (q r b : Array K) (m n o j diag : Nat) : Nat → Array K → Array K
+  | 0, x => x
+  | c + 1, x =>
+    let x' := qs2Back ops q r b m n o j diag c x
+    let i := diag - 1 - c
+    set x' o i j (accSub (qtbDot ops q b m o i j m) (fun t => get r n i (i + 1 + t) * get x' o (i + 1 + t) j) (diag - (i + 1)) / get r n i i)
+
+def qs2Cols (ops : QROps K) (q r b : Array K) (m n o : Nat) : Nat → Array K → Array K
+  | 0, x => x
+  | j + 1, x => qs2Back ops q r b m n o j (min m n) (min m n) (qs2Cols ops q r b m n o j x)
+
+/-- `_vnacommon_qrsolve2`: X n×o from Q, R and B m×o; rows of X beyond min(m,n) are zero -/
+def qrsolve2 (ops : QROps K) (q r b : Array K) (m n o : Nat) : Array K :=
+  qs2Cols ops q r b m n o o (Array.replicate (n * o) 0)
+
 end Libvna.LA
 
 namespace Libvna
